@@ -780,6 +780,9 @@ class NpyArray:
         # Reset length
         self.shape = (length, ) + self.shape[1:]
         self._prepare_header_data()
+        # Write the shorter header before cutting the data so that the file stays loadable
+        # if the process is interrupted in between
+        self.flush()
 
         self.fs.seek(self.header_length + self.size * self.itemsize)
         self.fs.truncate()
